@@ -439,6 +439,15 @@ func c06Schema(j any) *openapi3.SchemaRef {
 	for _, x := range jlist(m["allOf"]) {
 		s.AllOf = append(s.AllOf, c06Schema(x))
 	}
+	if n, ok := jnum(m["minProps"]); ok && n > 0 {
+		s.MinProps = uint64(n)
+	}
+	if m["maxProps"] != nil {
+		if n, ok := jnum(m["maxProps"]); ok {
+			u := uint64(n)
+			s.MaxProps = &u
+		}
+	}
 	if d, ok := m["dflt"]; ok && d != nil {
 		s.Default = jToGo(d) // what the loader makes of a `default` in a JSON document (numbers: float64)
 	}
@@ -1296,6 +1305,31 @@ func genDefaults(ctx *hx.Ctx, emit func(hx.Case)) {
 			}
 		}
 	}
+	// (E1b) minProperties / maxProperties count the members AFTER the defaults were injected
+	for minP := 0; minP < 3; minP++ {
+		for maxP := -1; maxP < 3; maxP++ {
+			for kind := 0; kind < 3; kind++ {
+				for ad := 0; ad < 2; ad++ {
+					pa := sch("ty", "integer", "ro", kind == 1, "wo", kind == 2)
+					if ad == 1 {
+						pa["dflt"] = jI(1)
+					}
+					s := sch("ty", "object", "props", []any{[]any{"a", pa}, []any{"b", sch("ty", "integer")}})
+					if minP > 0 {
+						s["minProps"] = minP
+					}
+					if maxP >= 0 {
+						s["maxProps"] = maxP
+					}
+					for _, v := range []any{jO(), jO("a", jI(3)), jO("b", jI(2)), jO("a", jI(3), "b", jI(2)), jO("b", jI(2), "c", jI(2)), jO("c", nil), jS("x"), jA()} {
+						both(s, v)
+					}
+					both(sch("allOf", []any{s}), jO("b", jI(2)))
+					both(sch("ty", "object", "props", []any{[]any{"o", s}}), jO("o", jO("b", jI(2))))
+				}
+			}
+		}
+	}
 	// (E2) defaults declared inside composition members; siblings that require / forbid / re-declare the property
 	for _, kw := range []string{"allOf", "anyOf", "oneOf"} {
 		for kind := 0; kind < 3; kind++ {
@@ -1562,6 +1596,12 @@ func c06RandSchema(r *hx.Rng, depth int) map[string]any {
 		s["required"] = req
 		if r.Chance(40) {
 			s["addl"] = r.Bool()
+		}
+		if r.Chance(12) {
+			s["minProps"] = 1 + r.Intn(2)
+		}
+		if r.Chance(12) {
+			s["maxProps"] = r.Intn(4)
 		}
 	}
 	if depth > 0 && r.Chance(28) {
@@ -2161,7 +2201,7 @@ func c06ShrinkSchema(s map[string]any) []map[string]any {
 			out = append(out, x)
 		}
 	}
-	for _, k := range []string{"nullable", "ro", "wo", "minLen", "max", "addl", "dflt"} {
+	for _, k := range []string{"nullable", "ro", "wo", "minLen", "max", "addl", "dflt", "minProps", "maxProps"} {
 		if v, ok := s[k]; ok && v != nil && v != false {
 			x := cp()
 			delete(x, k)
